@@ -25,10 +25,13 @@ EVID = os.path.join(ROOT, "evidence")
 REPLAY_DIR = os.path.join(EVID, "replay")
 
 
+DEV_REPO = [None]  # development only, see run_property
+
+
 def _child_env(extra):
     env = {k: v for k, v in os.environ.items() if not k.startswith("VERIF_") or k in ("VERIF_SEED", "VERIF_TIER")}
     env.update(extra)
-    env["PYTHONPATH"] = ROOT
+    env["PYTHONPATH"] = (DEV_REPO[0] + os.pathsep + ROOT) if DEV_REPO[0] else ROOT
     env["PYTHONDONTWRITEBYTECODE"] = "1"
     env["PYTHONHASHSEED"] = "0"
     env.pop("COVERAGE_PROCESS_START", None)
@@ -124,7 +127,10 @@ def run_property(prop: str, tier: str, jobs: int, only=None, no_twin=False) -> i
     mod = importlib.import_module(module)
     import sigma
 
-    assert list(sigma.__path__)[0] == "/repo/sigma", sigma.__path__
+    # development only: VERIF_DEV_REPO=<worktree> together with --only (which writes no evidence)
+    dev = os.environ.get("VERIF_DEV_REPO") if only else None
+    DEV_REPO[0] = dev
+    assert list(sigma.__path__)[0] == (dev or "/repo") + "/sigma", sigma.__path__
     obs = [o for o in mod.OBLIGATIONS if tier == "thorough" or o.tier == "quick"]
     if only:
         obs = [o for o in obs if only in o.ident()]
@@ -332,6 +338,10 @@ def run_property(prop: str, tier: str, jobs: int, only=None, no_twin=False) -> i
     if not only:
         with open(os.path.join(EVID, f"{prop}.json"), "w") as f:
             json.dump(evidence, f, indent=1, default=str)
+        if tier == "thorough":  # kept next to the evidence of the latest (usually quick) run
+            os.makedirs(os.path.join(EVID, "thorough"), exist_ok=True)
+            with open(os.path.join(EVID, "thorough", f"{prop}.json"), "w") as f:
+                json.dump(evidence, f, indent=1, default=str)
     for l in kf_lines:
         print(l)
     for n in notes:
